@@ -87,7 +87,7 @@ TrGate == IsEvent("Gate") /\ LET e == Trace[l] IN
 TrRun == IsEvent("Run") /\ LET e == Trace[l]  need300 == e.long \/ hh <= 300  need303 == e.long \/ hh <= 303 IN
   /\ height' = e.at /\ txlog' = txlog \o [i \in 1..e.blocks |-> DutyBlock] /\ halted' = (gate.on /\ e.res = "abort")
   /\ UNCHANGED <<queued, gate, nodeVars, whash, hres, hh>> /\ last' = Rec("Block", DutyBlock)
-  \* the only permitted stop: the running software is semantically OLDER than the upgrade governance completed
+  \* the only permitted stop: the running software is semantically OLDER than the upgrade governance completed (or of another major.minor line)
   /\ Report("C09.NoAbort", Closed \/ e.res # "abort")
   /\ Report("C09.GateHalts", Closed => (e.res = "abort" /\ e.blocks = 1))
   /\ Report("C09.RejectedOrSurvived", hres # "accepted" \/ (e.res = "ok" /\ e.m10 /\ e.m50 /\ (need300 => e.m300) /\ (need303 => e.m303)))
